@@ -290,6 +290,303 @@ const HTTP_R_GET_CONTENT_RESPONSE: &[&str] = &[
     "404\nContent-Type: application/json\n\n{\"errcode\":\"M_NOT_FOUND\",\"error\":\"nope\"}",
 ];
 
+// more endpoint conversions (generated once from a script, then maintained by hand)
+const HTTP_C_GET_MESSAGE_EVENTS: &[&str] = &[
+    "GET\n/_matrix/client/v3/rooms/%21room%3Aexample.org/messages?from=t47429-4392820_219380_26003_2265&to=t4357353_219380_26003_2265&dir=b&limit=3&filter=%7B%22types%22%3A%5B%22m.room.message%22%5D%2C%22not_senders%22%3A%5B%22%40spam%3Aexample.org%22%5D%2C%22contains_url%22%3Afalse%2C%22lazy_load_members%22%3Atrue%2C%22limit%22%3A5%7D\nAuthorization: Bearer tok\n\n",
+    "GET\n/_matrix/client/r0/rooms/!r:e.org/messages?dir=f\n\n",
+    "GET\n/_matrix/client/v3/rooms/%21room%3Aexample.org/messages?dir=b&filter=%7B%7D&limit=0&from=\n\n",
+    "GET\n/_matrix/client/v3/rooms/%2131hneApxJ_1o-63DmFrpeqnkFfWppnzWso1JvH3ogLM/messages?filter=%7B%22rooms%22%3A%5B%22%21a%3Ab%22%5D%2C%22not_rooms%22%3A%5B%5D%2C%22senders%22%3A%5B%5D%2C%22not_types%22%3A%5B%22m.%2A%22%5D%2C%22include_redundant_members%22%3Atrue%2C%22unread_thread_notifications%22%3Atrue%7D&from=a+b%20c&dir=f&limit=9007199254740991\n\n",
+];
+const HTTP_C_GET_CONTEXT: &[&str] = &[
+    "GET\n/_matrix/client/v3/rooms/%21room%3Aexample.org/context/%24event%3Aexample.org?limit=3&filter=%7B%22types%22%3A%5B%22m.room.message%22%5D%2C%22not_senders%22%3A%5B%22%40spam%3Aexample.org%22%5D%2C%22contains_url%22%3Afalse%2C%22lazy_load_members%22%3Atrue%2C%22limit%22%3A5%7D\nAuthorization: Bearer tok\n\n",
+    "GET\n/_matrix/client/v3/rooms/!r:e.org/context/$Rqnc-F-dvnEYJTyHq_iKxU2bZ1CI92-kuZq3a5lr5Zg\n\n",
+    "GET\n/_matrix/client/r0/rooms/%21room%3Aexample.org/context/%24acR1l0raoZnm60CBwAVgqbZqoO%2FmYU81xysh1u7XcJk?limit=0&filter=%7B%22rooms%22%3A%5B%22%21a%3Ab%22%5D%2C%22not_rooms%22%3A%5B%5D%2C%22senders%22%3A%5B%5D%2C%22not_types%22%3A%5B%22m.%2A%22%5D%2C%22include_redundant_members%22%3Atrue%2C%22unread_thread_notifications%22%3Atrue%7D\n\n",
+];
+const HTTP_C_LOGIN: &[&str] = &[
+    "POST\n/_matrix/client/v3/login\nContent-Type: application/json\n\n{\"type\":\"m.login.password\",\"identifier\":{\"type\":\"m.id.user\",\"user\":\"cheeky_monkey\"},\"password\":\"ilovebananas\",\"device_id\":\"GHTYAJCE\",\"initial_device_display_name\":\"Jungle Phone\",\"refresh_token\":true}",
+    "POST\n/_matrix/client/v3/login\n\n{\"type\":\"m.login.token\",\"token\":\"1234567890abcdef\"}",
+    "POST\n/_matrix/client/v3/login\n\n{\"type\":\"org.custom.login\",\"foo\":{\"bar\":1},\"device_id\":\"D\"}",
+    "POST\n/_matrix/client/r0/login\n\n{\"type\":\"m.login.password\",\"identifier\":{\"type\":\"m.id.thirdparty\",\"medium\":\"email\",\"address\":\"alice@example.org\"},\"password\":\"p\"}",
+    "POST\n/_matrix/client/v3/login\nAuthorization: Bearer tok\n\n{\"type\":\"m.login.application_service\",\"identifier\":{\"type\":\"m.id.phone\",\"country\":\"GB\",\"phone\":\"07700900000\"}}",
+    "POST\n/_matrix/client/v3/login\n\n{\"type\":\"m.login.password\",\"user\":\"alice\",\"medium\":\"org.custom.medium\",\"address\":\"x\",\"password\":\"p\",\"identifier\":{\"type\":\"m.id.thirdparty\",\"medium\":\"msisdn\",\"address\":\"447700900000\"}}",
+];
+const HTTP_C_REGISTER: &[&str] = &[
+    "POST\n/_matrix/client/v3/register?kind=user\nContent-Type: application/json\n\n{\"username\":\"cheeky_monkey\",\"password\":\"ilovebananas\",\"device_id\":\"GHTYAJCE\",\"initial_device_display_name\":\"Jungle Phone\",\"inhibit_login\":false,\"refresh_token\":true,\"auth\":{\"type\":\"m.login.dummy\",\"session\":\"xxxxx\"}}",
+    "POST\n/_matrix/client/v3/register?kind=guest\n\n{}",
+    "POST\n/_matrix/client/v3/register\n\n{\"username\":\"u\",\"auth\":{\"type\":\"m.login.email.identity\",\"threepid_creds\":{\"sid\":\"123\",\"client_secret\":\"secret_1\",\"id_server\":\"id.example.org\",\"id_access_token\":\"tok\"},\"session\":\"s\"}}",
+    "POST\n/_matrix/client/r0/register\n\n{\"auth\":{\"session\":\"abc\"}}",
+    "POST\n/_matrix/client/v3/register\nAuthorization: Bearer tok\n\n{\"type\":\"m.login.application_service\",\"username\":\"_irc_bob\",\"inhibit_login\":true}",
+    "POST\n/_matrix/client/v3/register\n\n{\"auth\":{\"type\":\"m.login.registration_token\",\"token\":\"fBVFdqVE\",\"session\":\"s\"},\"guest_access_token\":\"g\"}",
+    "POST\n/_matrix/client/v3/register\n\n{\"auth\":{\"type\":\"org.custom.auth\",\"session\":\"s\",\"x\":[1,2]},\"password\":\"p\"}",
+    "POST\n/_matrix/client/v3/register\n\n{\"auth\":{\"type\":\"m.login.password\",\"identifier\":{\"type\":\"m.id.user\",\"user\":\"@a:b\"},\"password\":\"p\",\"session\":\"s\"}}",
+];
+const HTTP_C_CREATE_ROOM: &[&str] = &[
+    "POST\n/_matrix/client/v3/createRoom\nAuthorization: Bearer tok\nContent-Type: application/json\n\n{\"preset\":\"public_chat\",\"room_alias_name\":\"thepub\",\"name\":\"The Grand Duke Pub\",\"topic\":\"All about happy hour\",\"visibility\":\"public\",\"is_direct\":false,\"room_version\":\"11\",\"invite\":[\"@bob:example.org\",\"@carol:other.org:8448\"],\"invite_3pid\":[{\"id_server\":\"id.example.org\",\"id_access_token\":\"abc123\",\"medium\":\"email\",\"address\":\"cheeky@monkey.com\"}],\"initial_state\":[{\"type\":\"m.room.join_rules\",\"state_key\":\"\",\"content\":{\"join_rule\":\"public\"}},{\"type\":\"m.room.encryption\",\"content\":{\"algorithm\":\"m.megolm.v1.aes-sha2\"}}],\"power_level_content_override\":{\"users\":{\"@alice:example.org\":100},\"events_default\":0,\"state_default\":50,\"invite\":50,\"events\":{\"m.room.name\":50},\"notifications\":{\"room\":20}},\"creation_content\":{\"m.federate\":false,\"type\":\"m.space\",\"predecessor\":{\"room_id\":\"!old:example.org\",\"event_id\":\"$last:example.org\"}}}",
+    "POST\n/_matrix/client/v3/createRoom\n\n{}",
+    "POST\n/_matrix/client/r0/createRoom\n\n{\"preset\":\"trusted_private_chat\",\"is_direct\":true,\"invite\":[\"@a:b\"],\"visibility\":\"private\",\"invite_3pid\":[]}",
+    "POST\n/_matrix/client/v3/createRoom\n\n{\"preset\":\"org.custom.preset\",\"room_version\":\"org.custom.version\",\"creation_content\":{\"additional_creators\":[\"@x:y\"],\"m.federate\":true},\"initial_state\":[{\"type\":\"org.custom.state\",\"state_key\":\"k\",\"content\":{}}],\"power_level_content_override\":{\"users\":{\"@a:b\":\"100\"}}}",
+];
+const HTTP_C_UPLOAD_KEYS: &[&str] = &[
+    "POST\n/_matrix/client/v3/keys/upload\nAuthorization: Bearer tok\nContent-Type: application/json\n\n{\"device_keys\":{\"user_id\":\"@alice:example.com\",\"device_id\":\"JLAFKJWSCS\",\"algorithms\":[\"m.olm.v1.curve25519-aes-sha2\",\"m.megolm.v1.aes-sha2\"],\"keys\":{\"curve25519:JLAFKJWSCS\":\"3C5BFWi2Y8MaVvjM8M22DBmh24PmgR0nPvJOIArzgyI\",\"ed25519:JLAFKJWSCS\":\"lEuiRJBit0IG6nUf5pUzWTUEsRVVe/HJkoKuEww9ULI\"},\"signatures\":{\"@alice:example.com\":{\"ed25519:JLAFKJWSCS\":\"dSO80A01XiigH3uBiDVx/EjzaoycHcjq9lfQX0uWsqxl2giMIiSPR8a4d291W1ihKJL/a+myXS367WT6NAIcBA\"}}},\"one_time_keys\":{\"signed_curve25519:AAAAHg\":{\"key\":\"zKbLg+NrIjpnagy+pIY6uPL4ZwEG2v+8F9lmgsnlZzs\",\"signatures\":{\"@alice:example.com\":{\"ed25519:JLAFKJWSCS\":\"IQeCEPb9HFk217cU9kw9EOiusC6kMIkoIRnbnfOh5Oc63S1ghgyjShBGpu34blQomoalCyXWyhaaT3MrLZYQAA\"}}},\"signed_curve25519:AAAAHQ\":{\"key\":\"j3fR3HemM16M7CWhoI4Sk5ZsdmdfQHsKL1xuSft6MSw\",\"signatures\":{\"@alice:example.com\":{\"ed25519:JLAFKJWSCS\":\"FLWxXqGbwrb8SM3Y795eB6OA8bwBcoMZFXBqnTn58AYWZSqiD45tlBVcDa2L7RwdKXebW/VzDlnfVJ+9jok1Bw\"}}},\"curve25519:AAAAAQ\":\"/qyvZvwjiTxGdGU0RCguDCLeR+nmsb3FfNG3/Ve4vU8\"},\"fallback_keys\":{\"signed_curve25519:AAAAGj\":{\"key\":\"zKbLg+NrIjpnagy+pIY6uPL4ZwEG2v+8F9lmgsnlZzs\",\"signatures\":{\"@alice:example.com\":{\"ed25519:JLAFKJWSCS\":\"IQeCEPb9HFk217cU9kw9EOiusC6kMIkoIRnbnfOh5Oc63S1ghgyjShBGpu34blQomoalCyXWyhaaT3MrLZYQAA\"}},\"fallback\":true}}}",
+    "POST\n/_matrix/client/v3/keys/upload\n\n{}",
+    "POST\n/_matrix/client/r0/keys/upload\n\n{\"one_time_keys\":{\"org.custom:k\":\"x\",\"curve25519:a_b\":\"y\"},\"fallback_keys\":{}}",
+];
+const HTTP_C_SEND_TO_DEVICE: &[&str] = &[
+    "PUT\n/_matrix/client/v3/sendToDevice/m.room_key_request/txn35\nAuthorization: Bearer tok\nContent-Type: application/json\n\n{\"messages\":{\"@alice:example.com\":{\"TLLBEANAAG\":{\"action\":\"request\",\"body\":{\"algorithm\":\"m.megolm.v1.aes-sha2\",\"room_id\":\"!Cuyf34gef24t:localhost\",\"session_id\":\"X3lUlvLELLYxeTx4yOVu6UDpasGEVO0Jbu+QFnm0cKQ\",\"sender_key\":\"RF3s+E7RkTQTGF2d8Deol0FkQvgII2aJDf3/Jp5mxVU\"},\"request_id\":\"1495474790150.19\",\"requesting_device_id\":\"RJYKSTBOIE\"}},\"@bob:example.org\":{\"*\":{\"action\":\"request_cancellation\",\"request_id\":\"r\",\"requesting_device_id\":\"D\"}}}}",
+    "PUT\n/_matrix/client/r0/sendToDevice/m.dummy/t%20x\n\n{\"messages\":{}}",
+    "PUT\n/_matrix/client/v3/sendToDevice/org.custom.type/m1234567890.1\n\n{\"messages\":{\"@a:b\":{\"d\u{e9}vice id\":{\"x\":[1,null,{\"y\":\"z\"}]},\"*\":{}}}}",
+    "PUT\n/_matrix/client/v3/sendToDevice/m.room.encrypted/t\n\n{\"messages\":{\"@a:b\":{\"D\":{\"algorithm\":\"m.olm.v1.curve25519-aes-sha2\",\"sender_key\":\"k\",\"ciphertext\":{\"7qZcfnBmbEGzxxaWfBjElJuvn7BZx+lSz/SvFrDF/z8\":{\"type\":0,\"body\":\"AwogGJJzMhf\"}}}}}}",
+];
+const HTTP_C_SET_READ_MARKER: &[&str] = &[
+    "POST\n/_matrix/client/v3/rooms/%21room%3Aexample.org/read_markers\nContent-Type: application/json\n\n{\"m.fully_read\":\"$somewhere:example.org\",\"m.read\":\"$elsewhere:example.org\",\"m.read.private\":\"$Rqnc-F-dvnEYJTyHq_iKxU2bZ1CI92-kuZq3a5lr5Zg\"}",
+    "POST\n/_matrix/client/v3/rooms/!r:e.org/read_markers\n\n{}",
+    "POST\n/_matrix/client/r0/rooms/%21room%3Aexample.org/read_markers\n\n{\"m.read.private\":\"$acR1l0raoZnm60CBwAVgqbZqoO/mYU81xysh1u7XcJk\"}",
+];
+const HTTP_C_SEARCH_USERS: &[&str] = &[
+    "POST\n/_matrix/client/v3/user_directory/search\nAccept-Language: en-GB,en;q=0.8\nContent-Type: application/json\n\n{\"search_term\":\"foo\",\"limit\":10}",
+    "POST\n/_matrix/client/r0/user_directory/search\n\n{\"search_term\":\"\"}",
+    "POST\n/_matrix/client/v3/user_directory/search\naccept-language: *\n\n{\"search_term\":\"b\u{d8}b @x:y\",\"limit\":0}",
+];
+const HTTP_C_GET_KEYS: &[&str] = &[
+    "POST\n/_matrix/client/v3/keys/query\nContent-Type: application/json\n\n{\"timeout\":10000,\"device_keys\":{\"@alice:example.com\":[],\"@bob:example.org\":[\"JLAFKJWSCS\",\"d2\"]}}",
+    "POST\n/_matrix/client/v3/keys/query\n\n{\"device_keys\":{}}",
+    "POST\n/_matrix/client/r0/keys/query\n\n{\"timeout\":0,\"device_keys\":{\"@a:[::1]:8448\":[\"*\"]},\"token\":\"ignored\"}",
+];
+const HTTP_C_SET_PRESENCE: &[&str] = &[
+    "PUT\n/_matrix/client/v3/presence/%40alice%3Aexample.org/status\nContent-Type: application/json\n\n{\"presence\":\"online\",\"status_msg\":\"I am here.\"}",
+    "PUT\n/_matrix/client/v3/presence/@a:b/status\n\n{\"presence\":\"unavailable\"}",
+    "PUT\n/_matrix/client/r0/presence/%40alice%3Aexample.org%3A8448/status\n\n{\"presence\":\"org.custom.busy\",\"status_msg\":\"\"}",
+    "PUT\n/_matrix/client/v3/presence/@a:b/status\n\n{\"presence\":\"offline\",\"status_msg\":null}",
+];
+const HTTP_C_UPLOAD_SIGNATURES: &[&str] = &[
+    "POST\n/_matrix/client/v3/keys/signatures/upload\nContent-Type: application/json\n\n{\"@alice:example.com\":{\"HIJKLMN\":{\"user_id\":\"@alice:example.com\",\"device_id\":\"HIJKLMN\",\"algorithms\":[\"m.olm.v1.curve25519-aes-sha2\",\"m.megolm.v1.aes-sha2\"],\"keys\":{\"curve25519:JLAFKJWSCS\":\"3C5BFWi2Y8MaVvjM8M22DBmh24PmgR0nPvJOIArzgyI\",\"ed25519:JLAFKJWSCS\":\"lEuiRJBit0IG6nUf5pUzWTUEsRVVe/HJkoKuEww9ULI\"},\"signatures\":{\"@alice:example.com\":{\"ed25519:JLAFKJWSCS\":\"dSO80A01XiigH3uBiDVx/EjzaoycHcjq9lfQX0uWsqxl2giMIiSPR8a4d291W1ihKJL/a+myXS367WT6NAIcBA\"}}},\"base64+master+public+key\":{\"user_id\":\"@alice:example.com\",\"usage\":[\"master\"],\"keys\":{\"ed25519:base64+master+public+key\":\"base64+master+public+key\"},\"signatures\":{\"@alice:example.com\":{\"ed25519:HIJKLMN\":\"signature+of+master+key\"}}}}}",
+    "POST\n/_matrix/client/v3/keys/signatures/upload\n\n{}",
+    "POST\n/_matrix/client/unstable/keys/signatures/upload\n\n{\"@alice:example.com\":{},\"@bob:example.org\":{\"base64+master+public+key\":{\"user_id\":\"@bob:example.org\",\"usage\":[\"master\"],\"keys\":{\"ed25519:base64+master+public+key\":\"base64+master+public+key\"},\"signatures\":{\"@alice:example.com\":{\"ed25519:base64+user+signing+public+key\":\"sig\"}}}}}",
+];
+const HTTP_C_GET_RELATIONS: &[&str] = &[
+    "GET\n/_matrix/client/v1/rooms/%21room%3Aexample.org/relations/%24event%3Aexample.org/m.annotation/m.reaction?from=page2_token&to=end&dir=f&limit=20&recurse=true\nAuthorization: Bearer tok\n\n",
+    "GET\n/_matrix/client/v1/rooms/!r:e.org/relations/$e/m.thread/m.room.message\n\n",
+    "GET\n/_matrix/client/unstable/rooms/!r:e.org/relations/$e/org.custom.rel/org.custom.event?dir=b&limit=0\n\n",
+    "GET\n/_matrix/client/v1/rooms/%21room%3Aexample.org/relations/%24acR1l0raoZnm60CBwAVgqbZqoO%2FmYU81xysh1u7XcJk/m.replace/m.room.encrypted?recurse=false&from=\n\n",
+];
+const HTTP_C_KNOCK_ROOM: &[&str] = &[
+    "POST\n/_matrix/client/v3/knock/%23room%3Aexample.org?via=example.org&via=other.org%3A8448&server_name=legacy.org\nContent-Type: application/json\n\n{\"reason\":\"Looking for support\"}",
+    "POST\n/_matrix/client/v3/knock/!r:e.org\n\n{}",
+    "POST\n/_matrix/client/v3/knock/%21room%3Aexample.org?server_name=%5B%3A%3A1%5D%3A8448&server_name=1.2.3.4\n\n{\"reason\":\"\"}",
+    "POST\n/_matrix/client/unstable/xyz.amorgan.knock/knock/!31hneApxJ_1o-63DmFrpeqnkFfWppnzWso1JvH3ogLM?via=a.b\n\n{\"reason\":null}",
+];
+const HTTP_C_REPORT_CONTENT: &[&str] = &[
+    "POST\n/_matrix/client/v3/rooms/%21room%3Aexample.org/report/%24event%3Aexample.org\nContent-Type: application/json\n\n{\"score\":-100,\"reason\":\"this makes me sad\"}",
+    "POST\n/_matrix/client/v3/rooms/!r:e.org/report/$Rqnc-F-dvnEYJTyHq_iKxU2bZ1CI92-kuZq3a5lr5Zg\n\n{}",
+    "POST\n/_matrix/client/r0/rooms/%21room%3Aexample.org/report/%24acR1l0raoZnm60CBwAVgqbZqoO%2FmYU81xysh1u7XcJk\n\n{\"score\":0}",
+];
+const HTTP_F_CREATE_INVITE: &[&str] = &[
+    "PUT\n/_matrix/federation/v2/invite/%21room%3Aexample.org/%24event%3Aexample.org\nAuthorization: X-Matrix origin=\"origin.example\",destination=\"dest.example\",key=\"ed25519:1\",sig=\"c2ln\"\nContent-Type: application/json\n\n{\"room_version\":\"10\",\"event\":{\"room_id\":\"!room:example.org\",\"sender\":\"@alice:example.org\",\"origin_server_ts\":1000,\"type\":\"m.room.member\",\"state_key\":\"@bob:other.org\",\"content\":{\"membership\":\"invite\"},\"prev_events\":[\"$Rqnc-F-dvnEYJTyHq_iKxU2bZ1CI92-kuZq3a5lr5Zg\"],\"depth\":3,\"auth_events\":[\"$create\",\"$jr\"],\"hashes\":{\"sha256\":\"x\"},\"signatures\":{\"other.org\":{\"ed25519:1\":\"sig\"}}},\"invite_room_state\":[{\"type\":\"m.room.name\",\"sender\":\"@alice:example.org\",\"state_key\":\"\",\"content\":{\"name\":\"Example Room\"}},{\"type\":\"m.room.join_rules\",\"sender\":\"@alice:example.org\",\"state_key\":\"\",\"content\":{\"join_rule\":\"invite\"}}]}",
+    "PUT\n/_matrix/federation/v2/invite/!r:e.org/$e\n\n{\"room_version\":\"org.custom\",\"event\":{},\"invite_room_state\":[]}",
+    "PUT\n/_matrix/federation/v2/invite/%2131hneApxJ_1o-63DmFrpeqnkFfWppnzWso1JvH3ogLM/$Rqnc-F-dvnEYJTyHq_iKxU2bZ1CI92-kuZq3a5lr5Zg\n\n{\"room_version\":\"12\",\"event\":{\"room_id\":\"!room:example.org\",\"sender\":\"@alice:example.org\",\"origin_server_ts\":1000,\"type\":\"m.room.member\",\"state_key\":\"@bob:other.org\",\"content\":{\"membership\":\"invite\",\"is_direct\":true,\"third_party_invite\":{\"display_name\":\"d\",\"signed\":{\"mxid\":\"@bob:other.org\",\"token\":\"t\",\"signatures\":{\"id.example.org\":{\"ed25519:0\":\"s\"}}}}},\"prev_events\":[\"$Rqnc-F-dvnEYJTyHq_iKxU2bZ1CI92-kuZq3a5lr5Zg\"],\"depth\":3,\"auth_events\":[\"$create\",\"$jr\"],\"hashes\":{\"sha256\":\"x\"},\"signatures\":{\"other.org\":{\"ed25519:1\":\"sig\"}}},\"invite_room_state\":[{\"room_id\":\"!room:example.org\",\"sender\":\"@alice:example.org\",\"origin_server_ts\":1000,\"type\":\"m.room.create\",\"content\":{\"room_version\":\"12\"},\"prev_events\":[\"$Rqnc-F-dvnEYJTyHq_iKxU2bZ1CI92-kuZq3a5lr5Zg\"],\"depth\":12,\"auth_events\":[],\"hashes\":{\"sha256\":\"x\"},\"signatures\":{\"example.org\":{\"ed25519:1\":\"sig\"}},\"state_key\":\"\"}]}",
+];
+const HTTP_F_GET_EVENT: &[&str] = &[
+    "GET\n/_matrix/federation/v1/event/%24event%3Aexample.org\nAuthorization: X-Matrix origin=\"origin.example\",destination=\"dest.example\",key=\"ed25519:1\",sig=\"c2ln\"\n\n",
+    "GET\n/_matrix/federation/v1/event/$Rqnc-F-dvnEYJTyHq_iKxU2bZ1CI92-kuZq3a5lr5Zg\n\n",
+    "GET\n/_matrix/federation/v1/event/%24acR1l0raoZnm60CBwAVgqbZqoO%2FmYU81xysh1u7XcJk\n\n",
+];
+const HTTP_F_BACKFILL: &[&str] = &[
+    "GET\n/_matrix/federation/v1/backfill/%21room%3Aexample.org?v=%24abc%3Aexample.org&v=%24def%3Aexample.org&limit=5\nAuthorization: X-Matrix origin=\"origin.example\",destination=\"dest.example\",key=\"ed25519:1\",sig=\"c2ln\"\n\n",
+    "GET\n/_matrix/federation/v1/backfill/!r:e.org?limit=0&v=$Rqnc-F-dvnEYJTyHq_iKxU2bZ1CI92-kuZq3a5lr5Zg\n\n",
+    "GET\n/_matrix/federation/v1/backfill/%21room%3Aexample.org?v=%24acR1l0raoZnm60CBwAVgqbZqoO%2FmYU81xysh1u7XcJk&limit=100&v=$e&v=%24143273582443PhrSn%3Aexample.org%3A8448\n\n",
+];
+const HTTP_F_CLAIM_KEYS: &[&str] = &[
+    "POST\n/_matrix/federation/v1/user/keys/claim\nAuthorization: X-Matrix origin=\"origin.example\",destination=\"dest.example\",key=\"ed25519:1\",sig=\"c2ln\"\nContent-Type: application/json\n\n{\"one_time_keys\":{\"@alice:example.com\":{\"JLAFKJWSCS\":\"signed_curve25519\",\"D2\":\"curve25519\"},\"@bob:example.org\":{\"X\":\"org.custom.alg\"}}}",
+    "POST\n/_matrix/federation/v1/user/keys/claim\n\n{\"one_time_keys\":{}}",
+    "POST\n/_matrix/federation/v1/user/keys/claim\n\n{\"one_time_keys\":{\"@a:b\":{}}}",
+];
+const HTTP_F_GET_DEVICES: &[&str] = &[
+    "GET\n/_matrix/federation/v1/user/devices/%40alice%3Aexample.org\nAuthorization: X-Matrix origin=\"origin.example\",destination=\"dest.example\",key=\"ed25519:1\",sig=\"c2ln\"\n\n",
+    "GET\n/_matrix/federation/v1/user/devices/@a:b\n\n",
+    "GET\n/_matrix/federation/v1/user/devices/%40alice%3A%5B2001%3Adb8%3A%3A1%5D%3A8448\n\n",
+];
+const HTTP_F_SEND_KNOCK: &[&str] = &[
+    "PUT\n/_matrix/federation/v1/send_knock/%21room%3Aexample.org/%24event%3Aexample.org\nAuthorization: X-Matrix origin=\"origin.example\",destination=\"dest.example\",key=\"ed25519:1\",sig=\"c2ln\"\nContent-Type: application/json\n\n{\"room_id\":\"!room:example.org\",\"sender\":\"@bob:other.org\",\"origin_server_ts\":1000,\"type\":\"m.room.member\",\"state_key\":\"@bob:other.org\",\"content\":{\"membership\":\"knock\",\"reason\":\"let me in\"},\"prev_events\":[\"$Rqnc-F-dvnEYJTyHq_iKxU2bZ1CI92-kuZq3a5lr5Zg\"],\"depth\":3,\"auth_events\":[\"$create\",\"$jr\"],\"hashes\":{\"sha256\":\"x\"},\"signatures\":{\"other.org\":{\"ed25519:1\":\"sig\"}}}",
+    "PUT\n/_matrix/federation/unstable/xyz.amorgan.knock/send_knock/!r:e.org/$e\n\n{}",
+    "PUT\n/_matrix/federation/v1/send_knock/%21room%3Aexample.org/$Rqnc-F-dvnEYJTyHq_iKxU2bZ1CI92-kuZq3a5lr5Zg\n\n[{\"room_id\":\"!room:example.org\",\"sender\":\"@bob:other.org\",\"origin_server_ts\":1000,\"type\":\"m.room.member\",\"state_key\":\"@bob:other.org\",\"content\":{\"membership\":\"knock\"},\"prev_events\":[\"$Rqnc-F-dvnEYJTyHq_iKxU2bZ1CI92-kuZq3a5lr5Zg\"],\"depth\":3,\"auth_events\":[\"$create\",\"$jr\"],\"hashes\":{\"sha256\":\"x\"},\"signatures\":{\"other.org\":{\"ed25519:1\":\"sig\"}}}]",
+];
+const HTTP_F_CREATE_LEAVE: &[&str] = &[
+    "PUT\n/_matrix/federation/v2/send_leave/%21room%3Aexample.org/%24event%3Aexample.org\nAuthorization: X-Matrix origin=\"origin.example\",destination=\"dest.example\",key=\"ed25519:1\",sig=\"c2ln\"\nContent-Type: application/json\n\n{\"room_id\":\"!room:example.org\",\"sender\":\"@bob:other.org\",\"origin_server_ts\":1000,\"type\":\"m.room.member\",\"state_key\":\"@bob:other.org\",\"content\":{\"membership\":\"leave\"},\"prev_events\":[\"$Rqnc-F-dvnEYJTyHq_iKxU2bZ1CI92-kuZq3a5lr5Zg\"],\"depth\":3,\"auth_events\":[\"$create\",\"$jr\"],\"hashes\":{\"sha256\":\"x\"},\"signatures\":{\"other.org\":{\"ed25519:1\":\"sig\"}}}",
+    "PUT\n/_matrix/federation/v2/send_leave/!r:e.org/$e\n\n{}",
+    "PUT\n/_matrix/federation/v2/send_leave/%21room%3Aexample.org/%24acR1l0raoZnm60CBwAVgqbZqoO%2FmYU81xysh1u7XcJk\n\n{\"room_id\":\"!room:example.org\",\"sender\":\"@alice:example.org\",\"origin_server_ts\":1000,\"type\":\"m.room.member\",\"state_key\":\"@bob:other.org\",\"content\":{\"membership\":\"leave\",\"reason\":\"kicked\"},\"prev_events\":[\"$Rqnc-F-dvnEYJTyHq_iKxU2bZ1CI92-kuZq3a5lr5Zg\"],\"depth\":3,\"auth_events\":[\"$create\",\"$jr\"],\"hashes\":{\"sha256\":\"x\"},\"signatures\":{\"other.org\":{\"ed25519:1\":\"sig\"}}}",
+];
+const HTTP_F_QUERY_PROFILE: &[&str] = &[
+    "GET\n/_matrix/federation/v1/query/profile?user_id=%40alice%3Aexample.org&field=displayname\nAuthorization: X-Matrix origin=\"origin.example\",destination=\"dest.example\",key=\"ed25519:1\",sig=\"c2ln\"\n\n",
+    "GET\n/_matrix/federation/v1/query/profile?user_id=@a:b\n\n",
+    "GET\n/_matrix/federation/v1/query/profile?field=avatar_url&user_id=%40alice%3Aexample.org%3A8448\n\n",
+    "GET\n/_matrix/federation/v1/query/profile?user_id=%40a.b_c%3Dd-e%2Ff%2Bg%3Asub.example.com&field=org.custom.field\n\n",
+];
+const HTTP_F_EXCHANGE_INVITE: &[&str] = &[
+    "PUT\n/_matrix/federation/v1/exchange_third_party_invite/%21room%3Aexample.org\nAuthorization: X-Matrix origin=\"origin.example\",destination=\"dest.example\",key=\"ed25519:1\",sig=\"c2ln\"\nContent-Type: application/json\n\n{\"type\":\"m.room.member\",\"room_id\":\"!room:example.org\",\"sender\":\"@alice:example.org\",\"state_key\":\"@bob:other.org\",\"content\":{\"display_name\":\"alice\",\"signed\":{\"mxid\":\"@bob:other.org\",\"token\":\"abc123\",\"signatures\":{\"magic.forest\":{\"ed25519:3\":\"fQpGIW1Snz+pwLZu6sTy2aHy/DYWWTspTJRPyNp0PKkymfIsNffysMl6ObMMFdIJhk6g6pwlIqZ54rxo8SLmAg\"}}}}}",
+    "PUT\n/_matrix/federation/v1/exchange_third_party_invite/%21room%3Aexample.org\n\n{\"type\":\"m.room.member\",\"room_id\":\"!room:example.org\",\"sender\":\"@alice:example.org\",\"state_key\":\"@bob:other.org\",\"content\":{\"membership\":\"invite\",\"third_party_invite\":{\"display_name\":\"alice\",\"signed\":{\"mxid\":\"@bob:other.org\",\"token\":\"abc123\",\"signatures\":{\"magic.forest\":{\"ed25519:3\":\"fQpGIW1Snz+pwLZu6sTy2aHy/DYWWTspTJRPyNp0PKkymfIsNffysMl6ObMMFdIJhk6g6pwlIqZ54rxo8SLmAg\"}}}}}}",
+    "PUT\n/_matrix/federation/v1/exchange_third_party_invite/!r:e.org\n\n{\"type\":\"org.custom.type\",\"sender\":\"@a:b\",\"state_key\":\"@c:d\",\"content\":{\"display_name\":\"\",\"signed\":{\"mxid\":\"@c:d\",\"token\":\"\",\"signatures\":{}}}}",
+];
+const HTTP_F_MAKE_JOIN: &[&str] = &[
+    "GET\n/_matrix/federation/v1/make_join/%21room%3Aexample.org/%40bob%3Aother.org?ver=1&ver=10&ver=11&ver=org.custom\nAuthorization: X-Matrix origin=\"origin.example\",destination=\"dest.example\",key=\"ed25519:1\",sig=\"c2ln\"\n\n",
+    "GET\n/_matrix/federation/v1/make_join/!r:e.org/@a:b\n\n",
+    "GET\n/_matrix/federation/v1/make_join/%21room%3Aexample.org/%40bob%3Aother.org?ver=12\n\n",
+];
+const HTTP_A_QUERY_USER_ID: &[&str] = &[
+    "GET\n/_matrix/app/v1/users/%40_irc_bob%3Aexample.org\nAuthorization: Bearer hs_token\n\n",
+    "GET\n/_matrix/app/v1/users/@a:b\n\n",
+    "GET\n/_matrix/app/v1/users/%40_irc_bridge_nick%5Baway%5D%3Aexample.org?access_token=hs_token\n\n",
+];
+const HTTP_A_PING: &[&str] = &[
+    "POST\n/_matrix/app/v1/ping\nAuthorization: Bearer hs_token\nContent-Type: application/json\n\n{\"transaction_id\":\"mautrix-go_1683636478256400935_123\"}",
+    "POST\n/_matrix/app/v1/ping\n\n{}",
+    "POST\n/_matrix/app/unstable/fi.mau.msc2659/ping\n\n{\"transaction_id\":\"a b/c\"}",
+];
+const HTTP_I_BIND_3PID: &[&str] = &[
+    "POST\n/_matrix/identity/v2/3pid/bind\nAuthorization: Bearer tok\nContent-Type: application/json\n\n{\"sid\":\"1234\",\"client_secret\":\"monkeys_are_GREAT\",\"mxid\":\"@ears:matrix.org\"}",
+    "POST\n/_matrix/identity/v2/3pid/bind\n\n{\"sid\":\"session_ID-1\",\"client_secret\":\"abc.=_-\",\"mxid\":\"@a:[::1]:8448\"}",
+];
+const HTTP_I_VALIDATE_EMAIL: &[&str] = &[
+    "POST\n/_matrix/identity/v2/validate/email/submitToken\nAuthorization: Bearer tok\nContent-Type: application/json\n\n{\"sid\":\"1234\",\"client_secret\":\"monkeys_are_GREAT\",\"token\":\"atoken\"}",
+    "POST\n/_matrix/identity/v2/validate/email/submitToken\n\n{\"sid\":\"A.b=_-\",\"client_secret\":\"A\",\"token\":\"\"}",
+];
+const HTTP_I_REQUEST_EMAIL_TOKEN: &[&str] = &[
+    "POST\n/_matrix/identity/v2/validate/email/requestToken\nAuthorization: Bearer tok\nContent-Type: application/json\n\n{\"client_secret\":\"monkeys_are_GREAT\",\"email\":\"alice@example.org\",\"send_attempt\":1,\"next_link\":\"https://example.org/congratulations.html\"}",
+    "POST\n/_matrix/identity/v2/validate/email/requestToken\n\n{\"client_secret\":\"0123456789abcdefghijklmnopqrstuvwxyzABCDEFGHIJKLMNOPQRSTUVWXYZ\",\"email\":\"\",\"send_attempt\":0}",
+];
+const HTTP_R_C_ERROR: &[&str] = &[
+    "200\nContent-Type: application/json\n\n{\"event_id\":\"$e\"}",
+    "403\nContent-Type: application/json\n\n{\"errcode\":\"M_FORBIDDEN\",\"error\":\"You are not allowed to send a message to this room.\"}",
+    "429\nContent-Type: application/json\nRetry-After: 2\n\n{\"errcode\":\"M_LIMIT_EXCEEDED\",\"error\":\"Too many requests\",\"retry_after_ms\":2000}",
+    "429\nContent-Type: application/json\nRetry-After: Fri, 15 May 2015 15:34:21 GMT\n\n{\"errcode\":\"M_LIMIT_EXCEEDED\",\"error\":\"Too many requests\",\"retry_after_ms\":2000}",
+    "429\nContent-Type: application/json\n\n{\"errcode\":\"M_LIMIT_EXCEEDED\",\"error\":\"Too many requests\"}",
+    "400\nContent-Type: application/json\n\n{\"errcode\":\"M_BAD_JSON\",\"error\":\"Malformed\"}",
+    "404\nContent-Type: text/html\n\n<html><body>404 Not Found</body></html>",
+    "401\nContent-Type: application/json\n\n{\"errcode\":\"M_UNKNOWN_TOKEN\",\"error\":\"Soft logged out\",\"soft_logout\":true}",
+    "403\nContent-Type: application/json\n\n{\"errcode\":\"M_RESOURCE_LIMIT_EXCEEDED\",\"error\":\"This homeserver has hit its Monthly Active User limit.\",\"admin_contact\":\"mailto:server.admin@example.org\",\"limit_type\":\"monthly_active_user\"}",
+    "400\nContent-Type: application/json\n\n{\"errcode\":\"M_INCOMPATIBLE_ROOM_VERSION\",\"error\":\"Your homeserver does not support the features required to join this room\",\"room_version\":\"3\"}",
+    "403\nContent-Type: application/json\n\n{\"errcode\":\"M_WRONG_ROOM_KEYS_VERSION\",\"error\":\"Wrong backup version.\",\"current_version\":\"42\"}",
+    "418\nContent-Type: application/json\n\n{\"errcode\":\"ORG.EXAMPLE_TEAPOT\",\"error\":\"short and stout\",\"handle\":{\"spout\":[1,2]},\"soft_logout\":\"n/a\",\"retry_after_ms\":\"x\"}",
+    "500\nContent-Type: application/json\n\n{\"error\":\"no errcode here\",\"detail\":5}",
+    "502\nContent-Type: application/json\n\n{\"errcode\":\"M_BAD_STATUS\",\"error\":\"upstream\",\"status\":503,\"body\":\"Service Unavailable\"}",
+    "413\n\n",
+];
+const HTTP_R_UIAA: &[&str] = &[
+    "200\nContent-Type: application/json\n\n{\"access_token\":\"abc123\",\"user_id\":\"@cheeky_monkey:matrix.org\",\"device_id\":\"GHTYAJCE\",\"refresh_token\":\"r\",\"expires_in_ms\":60000}",
+    "401\nContent-Type: application/json\n\n{\"flows\":[{\"stages\":[\"m.login.recaptcha\",\"m.login.terms\"]},{\"stages\":[\"m.login.email.identity\",\"org.custom.stage\"]},{\"stages\":[]},{}],\"params\":{\"m.login.recaptcha\":{\"public_key\":\"6Le31_kSAAAAAK-54VKccKamtr-MFA_3WS1d_fGV\"},\"m.login.terms\":{\"policies\":{\"privacy_policy\":{\"version\":\"1.2\",\"en\":{\"name\":\"Privacy Policy\",\"url\":\"https://example.org/privacy-1.2-en.html\"}}}}},\"session\":\"xxxxxx\",\"completed\":[\"m.login.dummy\"]}",
+    "401\nContent-Type: application/json\n\n{\"errcode\":\"M_FORBIDDEN\",\"error\":\"Invalid password\",\"completed\":[\"m.login.recaptcha\"],\"flows\":[{\"stages\":[\"m.login.password\"]},{\"stages\":[\"m.login.sso\"]},{\"stages\":[\"m.login.registration_token\",\"m.login.msisdn\"]}],\"params\":{},\"session\":\"s\"}",
+    "401\nContent-Type: application/json\n\n{\"flows\":[]}",
+    "401\nContent-Type: application/json\n\n{\"errcode\":\"M_UNKNOWN_TOKEN\",\"error\":\"Unrecognised access token\",\"soft_logout\":false}",
+    "400\nContent-Type: application/json\n\n{\"errcode\":\"M_USER_IN_USE\",\"error\":\"Desired user ID is already taken.\"}",
+    "200\nContent-Type: application/json\n\n{\"user_id\":\"@1234:example.org\"}",
+    "401\nContent-Type: application/json\n\n{\"flows\":[{\"stages\":[\"m.login.dummy\"]}],\"errcode\":\"M_LIMIT_EXCEEDED\",\"error\":\"slow down\",\"retry_after_ms\":5,\"params\":null,\"session\":null}",
+    "403\nContent-Type: application/json\n\n{\"flows\":[{\"stages\":[\"m.login.dummy\"]}],\"session\":\"s\"}",
+];
+const HTTP_R_F_ERROR: &[&str] = &[
+    "200\nContent-Type: application/json\n\n{\"origin\":\"example.org\",\"origin_server_ts\":1234567890,\"pdus\":[{\"room_id\":\"!room:example.org\",\"sender\":\"@alice:example.org\",\"origin_server_ts\":1000,\"type\":\"m.room.message\",\"content\":{\"msgtype\":\"m.text\",\"body\":\"hi\"},\"prev_events\":[\"$Rqnc-F-dvnEYJTyHq_iKxU2bZ1CI92-kuZq3a5lr5Zg\"],\"depth\":12,\"auth_events\":[],\"hashes\":{\"sha256\":\"x\"},\"signatures\":{\"example.org\":{\"ed25519:1\":\"sig\"}}}]}",
+    "404\nContent-Type: application/json\n\n{\"errcode\":\"M_NOT_FOUND\",\"error\":\"Event not found\"}",
+    "403\nContent-Type: application/json\n\n{\"errcode\":\"M_FORBIDDEN\",\"error\":\"Host not in room.\"}",
+    "502\nContent-Type: text/html\n\n<html><body><h1>502 Bad Gateway</h1></body></html>",
+    "429\nContent-Type: application/json\nRetry-After: 2\n\n{\"errcode\":\"M_LIMIT_EXCEEDED\",\"error\":\"Too many requests\",\"retry_after_ms\":2000}",
+    "200\nContent-Type: application/json\n\n{\"origin\":\"example.org\",\"origin_server_ts\":0,\"pdus\":[]}",
+    "200\nContent-Type: application/json\n\n{\"origin\":\"[::1]:8448\",\"origin_server_ts\":1,\"pdus\":[{\"room_id\":\"!room:example.org\",\"sender\":\"@alice:example.org\",\"origin_server_ts\":1000,\"type\":\"m.room.message\",\"content\":{\"msgtype\":\"m.text\",\"body\":\"hi\"},\"prev_events\":[\"$Rqnc-F-dvnEYJTyHq_iKxU2bZ1CI92-kuZq3a5lr5Zg\"],\"depth\":12,\"auth_events\":[],\"hashes\":{\"sha256\":\"x\"},\"signatures\":{\"example.org\":{\"ed25519:1\":\"sig\"}}},{\"room_id\":\"!room:example.org\",\"sender\":\"@alice:example.org\",\"origin_server_ts\":1000,\"type\":\"m.room.message\",\"content\":{\"msgtype\":\"m.text\",\"body\":\"hi\"},\"prev_events\":[\"$Rqnc-F-dvnEYJTyHq_iKxU2bZ1CI92-kuZq3a5lr5Zg\"],\"depth\":12,\"auth_events\":[],\"hashes\":{\"sha256\":\"x\"},\"signatures\":{\"example.org\":{\"ed25519:1\":\"sig\"}}}]}",
+    "401\n\n{\"errcode\":\"M_UNAUTHORIZED\",\"error\":\"Invalid signature\"}",
+];
+const HTTP_R_GET_SUPPORTED_VERSIONS: &[&str] = &[
+    "200\nContent-Type: application/json\n\n{\"versions\":[\"r0.0.1\",\"r0.6.1\",\"v1.1\",\"v1.11\",\"v99.0\",\"nonsense\"],\"unstable_features\":{\"org.matrix.e2e_cross_signing\":true,\"org.matrix.msc2285.stable\":false}}",
+    "200\nContent-Type: application/json\n\n{\"versions\":[]}",
+    "200\n\n{\"versions\":[\"v1.1\"],\"unstable_features\":{},\"server\":{\"name\":\"x\"}}",
+];
+const HTTP_R_DISCOVER_HOMESERVER: &[&str] = &[
+    "200\nContent-Type: application/json\n\n{\"m.homeserver\":{\"base_url\":\"https://matrix.example.com\"},\"m.identity_server\":{\"base_url\":\"https://identity.example.com\"},\"org.example.custom.property\":{\"app_url\":\"https://custom.app.example.org\"}}",
+    "200\nContent-Type: application/json\n\n{\"m.homeserver\":{\"base_url\":\"\"}}",
+    "200\nContent-Type: text/plain\n\n{\"m.homeserver\":{\"base_url\":\"https://matrix.example.com:8448/\",\"extra\":1},\"m.tile_server\":{\"map_style_url\":\"https://tiles.example.org/style.json\"},\"m.authentication\":{\"issuer\":\"https://auth.example.org/\",\"account\":\"https://auth.example.org/account\"}}",
+    "404\nContent-Type: text/plain\n\nNot found",
+];
+const HTTP_R_DISCOVER_SERVER: &[&str] = &[
+    "200\nContent-Type: application/json\n\n{\"m.server\":\"delegated.example.com:1234\"}",
+    "200\nContent-Type: application/json\n\n{\"m.server\":\"[2001:db8::1]:8448\"}",
+    "200\nContent-Type: application/octet-stream\n\n{\"m.server\":\"1.2.3.4\",\"m.other\":null}",
+    "404\nContent-Type: text/html\n\n<html></html>",
+];
+const HTTP_R_LOGIN_TYPES: &[&str] = &[
+    "200\nContent-Type: application/json\n\n{\"flows\":[{\"type\":\"m.login.password\"},{\"type\":\"m.login.token\",\"get_login_token\":true},{\"type\":\"m.login.sso\",\"identity_providers\":[{\"id\":\"oidc-github\",\"name\":\"GitHub\",\"icon\":\"mxc://example.org/gh\",\"brand\":\"github\"},{\"id\":\"custom\",\"name\":\"Custom\",\"brand\":\"org.custom.brand\"},{\"id\":\"g\",\"name\":\"G\",\"icon\":null,\"brand\":null}]},{\"type\":\"m.login.application_service\"},{\"type\":\"org.custom.login\",\"extra\":{\"a\":[1]}}]}",
+    "200\nContent-Type: application/json\n\n{\"flows\":[]}",
+    "200\nContent-Type: application/json\n\n{\"flows\":[{\"type\":\"m.login.sso\"},{\"type\":\"m.login.token\"},{\"type\":\"m.login.sso\",\"identity_providers\":[],\"org.matrix.msc3824.delegated_oidc_compatibility\":true}]}",
+    "429\nContent-Type: application/json\n\n{\"errcode\":\"M_LIMIT_EXCEEDED\",\"error\":\"x\",\"retry_after_ms\":1}",
+];
+const HTTP_R_LOGIN: &[&str] = &[
+    "200\nContent-Type: application/json\n\n{\"user_id\":\"@cheeky_monkey:matrix.org\",\"access_token\":\"abc123\",\"device_id\":\"GHTYAJCE\",\"home_server\":\"matrix.org\",\"well_known\":{\"m.homeserver\":{\"base_url\":\"https://example.org\"},\"m.identity_server\":{\"base_url\":\"https://id.example.org\"}},\"refresh_token\":\"def456\",\"expires_in_ms\":60000}",
+    "200\nContent-Type: application/json\n\n{\"user_id\":\"@a:b\",\"access_token\":\"\",\"device_id\":\"D\"}",
+    "200\nContent-Type: application/json\n\n{\"user_id\":\"@alice:[::1]:8448\",\"access_token\":\"t\",\"device_id\":\"d\u{e9}vice id\",\"well_known\":{\"m.homeserver\":{\"base_url\":\"https://hs\"}},\"expires_in_ms\":0}",
+    "403\nContent-Type: application/json\n\n{\"errcode\":\"M_FORBIDDEN\",\"error\":\"Invalid username or password\"}",
+    "403\nContent-Type: application/json\n\n{\"errcode\":\"M_USER_DEACTIVATED\",\"error\":\"This account has been deactivated\"}",
+    "429\nContent-Type: application/json\n\n{\"errcode\":\"M_LIMIT_EXCEEDED\",\"error\":\"Too many requests\",\"retry_after_ms\":2000}",
+];
+const HTTP_R_MAKE_JOIN: &[&str] = &[
+    "200\nContent-Type: application/json\n\n{\"room_version\":\"10\",\"event\":{\"room_id\":\"!room:example.org\",\"sender\":\"@bob:other.org\",\"origin\":\"example.org\",\"origin_server_ts\":1549041175876,\"type\":\"m.room.member\",\"state_key\":\"@bob:other.org\",\"content\":{\"membership\":\"join\",\"join_authorised_via_users_server\":\"@alice:example.org\"},\"prev_events\":[\"$Rqnc-F-dvnEYJTyHq_iKxU2bZ1CI92-kuZq3a5lr5Zg\"],\"auth_events\":[\"$c\",\"$j\"],\"depth\":12}}",
+    "200\nContent-Type: application/json\n\n{\"event\":{}}",
+    "200\nContent-Type: application/json\n\n{\"room_version\":\"org.custom.version\",\"event\":{\"type\":\"m.room.member\",\"content\":{\"membership\":\"join\"}}}",
+    "400\nContent-Type: application/json\n\n{\"errcode\":\"M_INCOMPATIBLE_ROOM_VERSION\",\"error\":\"Your homeserver does not support the features required to join this room\",\"room_version\":\"11\"}",
+    "404\nContent-Type: application/json\n\n{\"errcode\":\"M_NOT_FOUND\",\"error\":\"Unknown room\"}",
+];
+const HTTP_R_STATE_IDS: &[&str] = &[
+    "200\nContent-Type: application/json\n\n{\"auth_chain_ids\":[\"$a:example.org\",\"$Rqnc-F-dvnEYJTyHq_iKxU2bZ1CI92-kuZq3a5lr5Zg\"],\"pdu_ids\":[\"$b\",\"$acR1l0raoZnm60CBwAVgqbZqoO/mYU81xysh1u7XcJk\",\"$c:example.org:8448\"]}",
+    "200\nContent-Type: application/json\n\n{\"auth_chain_ids\":[],\"pdu_ids\":[]}",
+    "403\nContent-Type: application/json\n\n{\"errcode\":\"M_FORBIDDEN\",\"error\":\"Host not in room.\"}",
+];
+const HTTP_R_BACKFILL: &[&str] = &[
+    "200\nContent-Type: application/json\n\n{\"origin\":\"matrix.org\",\"origin_server_ts\":1234567890,\"pdus\":[{\"room_id\":\"!room:example.org\",\"sender\":\"@alice:example.org\",\"origin_server_ts\":1000,\"type\":\"m.room.message\",\"content\":{\"msgtype\":\"m.text\",\"body\":\"hi\"},\"prev_events\":[\"$Rqnc-F-dvnEYJTyHq_iKxU2bZ1CI92-kuZq3a5lr5Zg\"],\"depth\":12,\"auth_events\":[],\"hashes\":{\"sha256\":\"x\"},\"signatures\":{\"example.org\":{\"ed25519:1\":\"sig\"}}},{\"room_id\":\"!room:example.org\",\"sender\":\"@bob:other.org\",\"origin_server_ts\":1000,\"type\":\"m.room.member\",\"state_key\":\"@bob:other.org\",\"content\":{\"membership\":\"join\"},\"prev_events\":[\"$Rqnc-F-dvnEYJTyHq_iKxU2bZ1CI92-kuZq3a5lr5Zg\"],\"depth\":3,\"auth_events\":[\"$create\",\"$jr\"],\"hashes\":{\"sha256\":\"x\"},\"signatures\":{\"other.org\":{\"ed25519:1\":\"sig\"}}}]}",
+    "200\nContent-Type: application/json\n\n{\"origin\":\"1.2.3.4:80\",\"origin_server_ts\":0,\"pdus\":[]}",
+    "200\nContent-Type: application/json\n\n{\"origin\":\"a-b.c-d.example\",\"origin_server_ts\":9007199254740991,\"pdus\":[{},{\"type\":\"x\",\"content\":null}]}",
+];
+const HTTP_R_KEYS_QUERY: &[&str] = &[
+    "200\nContent-Type: application/json\n\n{\"failures\":{\"unreachable.example.org\":{\"status\":503,\"errcode\":\"M_UNKNOWN\",\"message\":\"unreachable\"},\"other.org\":{}},\"device_keys\":{\"@alice:example.com\":{\"JLAFKJWSCS\":{\"user_id\":\"@alice:example.com\",\"device_id\":\"JLAFKJWSCS\",\"algorithms\":[\"m.olm.v1.curve25519-aes-sha2\",\"m.megolm.v1.aes-sha2\"],\"keys\":{\"curve25519:JLAFKJWSCS\":\"3C5BFWi2Y8MaVvjM8M22DBmh24PmgR0nPvJOIArzgyI\",\"ed25519:JLAFKJWSCS\":\"lEuiRJBit0IG6nUf5pUzWTUEsRVVe/HJkoKuEww9ULI\"},\"signatures\":{\"@alice:example.com\":{\"ed25519:JLAFKJWSCS\":\"dSO80A01XiigH3uBiDVx/EjzaoycHcjq9lfQX0uWsqxl2giMIiSPR8a4d291W1ihKJL/a+myXS367WT6NAIcBA\"}},\"unsigned\":{\"device_display_name\":\"Alice's mobile phone\"}}},\"@bob:example.org\":{}},\"master_keys\":{\"@alice:example.com\":{\"user_id\":\"@alice:example.com\",\"usage\":[\"master\"],\"keys\":{\"ed25519:base64+master+public+key\":\"base64+master+public+key\"}}},\"self_signing_keys\":{\"@alice:example.com\":{\"user_id\":\"@alice:example.com\",\"usage\":[\"self_signing\"],\"keys\":{\"ed25519:base64+self+signing+public+key\":\"base64+self+signing+master+public+key\"},\"signatures\":{\"@alice:example.com\":{\"ed25519:base64+master+public+key\":\"signature+of+self+signing+key\"}}}},\"user_signing_keys\":{\"@alice:example.com\":{\"user_id\":\"@alice:example.com\",\"usage\":[\"user_signing\"],\"keys\":{\"ed25519:base64+user+signing+public+key\":\"base64+user+signing+master+public+key\"},\"signatures\":{\"@alice:example.com\":{\"ed25519:base64+master+public+key\":\"signature+of+user+signing+key\"}}}}}",
+    "200\nContent-Type: application/json\n\n{}",
+    "200\nContent-Type: application/json\n\n{\"failures\":{\"x\":null,\"y\":[1,\"2\"]},\"device_keys\":{\"@a:b\":{\"d\u{e9}vice\":{}}}}",
+];
+const HTTP_R_GET_DEVICES: &[&str] = &[
+    "200\nContent-Type: application/json\n\n{\"user_id\":\"@alice:example.org\",\"stream_id\":5,\"devices\":[{\"device_id\":\"JLAFKJWSCS\",\"device_display_name\":\"Alice's Mobile Phone\",\"keys\":{\"user_id\":\"@alice:example.com\",\"device_id\":\"JLAFKJWSCS\",\"algorithms\":[\"m.olm.v1.curve25519-aes-sha2\",\"m.megolm.v1.aes-sha2\"],\"keys\":{\"curve25519:JLAFKJWSCS\":\"3C5BFWi2Y8MaVvjM8M22DBmh24PmgR0nPvJOIArzgyI\",\"ed25519:JLAFKJWSCS\":\"lEuiRJBit0IG6nUf5pUzWTUEsRVVe/HJkoKuEww9ULI\"},\"signatures\":{\"@alice:example.com\":{\"ed25519:JLAFKJWSCS\":\"dSO80A01XiigH3uBiDVx/EjzaoycHcjq9lfQX0uWsqxl2giMIiSPR8a4d291W1ihKJL/a+myXS367WT6NAIcBA\"}}}},{\"device_id\":\"D2\",\"keys\":{}}],\"master_key\":{\"user_id\":\"@alice:example.com\",\"usage\":[\"master\"],\"keys\":{\"ed25519:base64+master+public+key\":\"base64+master+public+key\"}},\"self_signing_key\":{\"user_id\":\"@alice:example.com\",\"usage\":[\"self_signing\"],\"keys\":{\"ed25519:base64+self+signing+public+key\":\"base64+self+signing+master+public+key\"},\"signatures\":{\"@alice:example.com\":{\"ed25519:base64+master+public+key\":\"signature+of+self+signing+key\"}}}}",
+    "200\nContent-Type: application/json\n\n{\"user_id\":\"@a:b\",\"stream_id\":0,\"devices\":[]}",
+    "200\nContent-Type: application/json\n\n{\"user_id\":\"@alice:example.org:8448\",\"stream_id\":9007199254740991,\"devices\":[{\"device_id\":\"d\",\"keys\":null,\"device_display_name\":null}],\"master_key\":null}",
+];
+const HTTP_R_MESSAGES: &[&str] = &[
+    "200\nContent-Type: application/json\n\n{\"start\":\"t47429-4392820_219380_26003_2265\",\"end\":\"t47409-4357353_219380_26003_2265\",\"chunk\":[{\"type\":\"m.room.message\",\"event_id\":\"$m1:example.org\",\"room_id\":\"!room:example.org\",\"sender\":\"@alice:example.org\",\"origin_server_ts\":2000,\"content\":{\"msgtype\":\"m.text\",\"body\":\"hi\"},\"unsigned\":{\"age\":1234}},{\"type\":\"m.room.name\",\"event_id\":\"$n:example.org\",\"room_id\":\"!room:example.org\",\"sender\":\"@alice:example.org\",\"origin_server_ts\":3,\"state_key\":\"\",\"content\":{\"name\":\"The room\"},\"unsigned\":{\"prev_content\":{\"name\":\"Old\"}}},{\"type\":\"m.room.message\",\"event_id\":\"$m2:example.org\",\"room_id\":\"!room:example.org\",\"sender\":\"@bob:example.org\",\"origin_server_ts\":2001,\"content\":{\"msgtype\":\"m.image\",\"body\":\"i.png\",\"url\":\"mxc://example.org/i\",\"info\":{\"w\":1,\"h\":2,\"mimetype\":\"image/png\",\"size\":3}}}],\"state\":[{\"type\":\"m.room.member\",\"event_id\":\"$j:example.org\",\"room_id\":\"!room:example.org\",\"sender\":\"@alice:example.org\",\"origin_server_ts\":1,\"state_key\":\"@alice:example.org\",\"content\":{\"membership\":\"join\",\"displayname\":\"Alice\",\"avatar_url\":\"mxc://example.org/a\"}}]}",
+    "200\nContent-Type: application/json\n\n{\"start\":\"s\"}",
+    "200\nContent-Type: application/json\n\n{\"start\":\"\",\"chunk\":[],\"state\":[],\"end\":null}",
+    "403\nContent-Type: application/json\n\n{\"errcode\":\"M_FORBIDDEN\",\"error\":\"You aren't a member of the room.\"}",
+];
+const HTTP_R_CONTEXT: &[&str] = &[
+    "200\nContent-Type: application/json\n\n{\"start\":\"t27-54_2_0_2\",\"end\":\"t29-57_2_0_2\",\"events_before\":[{\"type\":\"m.room.message\",\"event_id\":\"$m1:example.org\",\"room_id\":\"!room:example.org\",\"sender\":\"@alice:example.org\",\"origin_server_ts\":2000,\"content\":{\"msgtype\":\"m.text\",\"body\":\"hi\"},\"unsigned\":{\"age\":1234}}],\"event\":{\"type\":\"m.room.message\",\"event_id\":\"$m2:example.org\",\"room_id\":\"!room:example.org\",\"sender\":\"@bob:example.org\",\"origin_server_ts\":2001,\"content\":{\"msgtype\":\"m.image\",\"body\":\"i.png\",\"url\":\"mxc://example.org/i\",\"info\":{\"w\":1,\"h\":2,\"mimetype\":\"image/png\",\"size\":3}}},\"events_after\":[{\"type\":\"m.room.name\",\"event_id\":\"$n:example.org\",\"room_id\":\"!room:example.org\",\"sender\":\"@alice:example.org\",\"origin_server_ts\":3,\"state_key\":\"\",\"content\":{\"name\":\"The room\"},\"unsigned\":{\"prev_content\":{\"name\":\"Old\"}}}],\"state\":[{\"type\":\"m.room.member\",\"event_id\":\"$j:example.org\",\"room_id\":\"!room:example.org\",\"sender\":\"@alice:example.org\",\"origin_server_ts\":1,\"state_key\":\"@alice:example.org\",\"content\":{\"membership\":\"join\",\"displayname\":\"Alice\",\"avatar_url\":\"mxc://example.org/a\"}},{\"type\":\"m.room.name\",\"event_id\":\"$n:example.org\",\"room_id\":\"!room:example.org\",\"sender\":\"@alice:example.org\",\"origin_server_ts\":3,\"state_key\":\"\",\"content\":{\"name\":\"The room\"},\"unsigned\":{\"prev_content\":{\"name\":\"Old\"}}}]}",
+    "200\nContent-Type: application/json\n\n{}",
+    "200\nContent-Type: application/json\n\n{\"event\":{\"type\":\"org.custom\",\"content\":{}},\"events_before\":[],\"start\":null}",
+];
+const HTTP_R_JOINED_MEMBERS: &[&str] = &[
+    "200\nContent-Type: application/json\n\n{\"joined\":{\"@bar:example.com\":{\"avatar_url\":\"mxc://riot.ovh/printErCATzZijQsSDWorRaK\",\"display_name\":\"Bar\"},\"@foo:example.org\":{}}}",
+    "200\nContent-Type: application/json\n\n{\"joined\":{}}",
+    "200\nContent-Type: application/json\n\n{\"joined\":{\"@a:[::1]:8448\":{\"avatar_url\":null,\"display_name\":null},\"@Alice Bob:example.org\":{\"display_name\":\"\"}}}",
+];
+const HTTP_R_PUBLIC_ROOMS: &[&str] = &[
+    "200\nContent-Type: application/json\n\n{\"chunk\":[{\"room_id\":\"!ol19s:bleecker.street\",\"name\":\"CHEESE\",\"topic\":\"Tasty tasty cheese\",\"canonical_alias\":\"#murrays:cheese.bar\",\"avatar_url\":\"mxc://bleecker.street/CHEDDARandBRIE\",\"num_joined_members\":37,\"world_readable\":true,\"guest_can_join\":false,\"join_rule\":\"public\",\"room_type\":\"m.space\"},{\"room_id\":\"!r:e.org\",\"num_joined_members\":0,\"world_readable\":false,\"guest_can_join\":true,\"join_rule\":\"knock_restricted\"}],\"next_batch\":\"p190q\",\"prev_batch\":\"p1902\",\"total_room_count_estimate\":115}",
+    "200\nContent-Type: application/json\n\n{\"chunk\":[]}",
+    "200\nContent-Type: application/json\n\n{\"chunk\":[{\"room_id\":\"!31hneApxJ_1o-63DmFrpeqnkFfWppnzWso1JvH3ogLM\",\"num_joined_members\":1,\"world_readable\":false,\"guest_can_join\":false,\"join_rule\":\"org.custom.rule\",\"room_type\":\"org.custom.type\",\"canonical_alias\":null,\"avatar_url\":null,\"name\":null}],\"total_room_count_estimate\":0}",
+];
+const HTTP_R_TURN_SERVER: &[&str] = &[
+    "200\nContent-Type: application/json\n\n{\"username\":\"1443779631:@user:example.com\",\"password\":\"JlKfBy1QwLrO20385QyAtEyIv0=\",\"uris\":[\"turn:turn.example.com:3478?transport=udp\",\"turn:10.20.30.40:3478?transport=tcp\",\"turns:10.20.30.40:443?transport=tcp\"],\"ttl\":86400}",
+    "200\nContent-Type: application/json\n\n{\"username\":\"\",\"password\":\"\",\"uris\":[],\"ttl\":0}",
+    "200\nContent-Type: application/json\n\n{\"username\":\"u\",\"password\":\"p\",\"uris\":[\"stun:[::1]\"],\"ttl\":9007199254740991}",
+];
+const HTTP_R_PROFILE: &[&str] = &[
+    "200\nContent-Type: application/json\n\n{\"avatar_url\":\"mxc://matrix.org/SDGdghriugerRg\",\"displayname\":\"Alice Margatroid\",\"m.tz\":\"Europe/London\",\"org.example.custom\":{\"x\":[1,2,3]}}",
+    "200\nContent-Type: application/json\n\n{}",
+    "200\nContent-Type: application/json\n\n{\"displayname\":null,\"avatar_url\":null,\"xyz.amorgan.blurhash\":\"LKO2?U%2Tw=w]~RBVZRi};RPxuwH\"}",
+    "404\nContent-Type: application/json\n\n{\"errcode\":\"M_NOT_FOUND\",\"error\":\"Profile not found\"}",
+];
+const HTTP_R_HIERARCHY: &[&str] = &[
+    "200\nContent-Type: application/json\n\n{\"next_batch\":\"next_batch_token\",\"rooms\":[{\"room_id\":\"!space:example.org\",\"name\":\"The Space\",\"topic\":\"t\",\"canonical_alias\":\"#space:example.org\",\"avatar_url\":\"mxc://example.org/abc\",\"num_joined_members\":5,\"world_readable\":true,\"guest_can_join\":false,\"join_rule\":\"restricted\",\"room_type\":\"m.space\",\"children_state\":[{\"type\":\"m.space.child\",\"state_key\":\"!child:example.org\",\"sender\":\"@alice:example.org\",\"origin_server_ts\":1629413349153,\"content\":{\"via\":[\"example.org\",\"other.org:8448\"],\"order\":\"a\",\"suggested\":true}}],\"allowed_room_ids\":[\"!x:y\"]},{\"room_id\":\"!child:example.org\",\"num_joined_members\":0,\"world_readable\":false,\"guest_can_join\":true,\"children_state\":[]}]}",
+    "200\nContent-Type: application/json\n\n{\"rooms\":[]}",
+    "200\nContent-Type: application/json\n\n{\"rooms\":[{\"room_id\":\"!r:e.org\",\"num_joined_members\":1,\"world_readable\":false,\"guest_can_join\":false,\"join_rule\":\"org.custom.rule\",\"room_type\":\"org.custom\",\"children_state\":[{},{\"type\":\"m.space.child\",\"state_key\":\"!child:example.org\",\"sender\":\"@alice:example.org\",\"origin_server_ts\":1629413349153,\"content\":{}}]}],\"next_batch\":null}",
+];
+
 const STATERES: &[&str] = &[
     r###"[{"event_id":"$create","room_id":"!room:example.org","sender":"@alice:example.org","type":"m.room.create","content":{"creator":"@alice:example.org","room_version":"6"},"state_key":"","origin_server_ts":0,"prev_events":[],"auth_events":[]},{"event_id":"$alice-join","room_id":"!room:example.org","sender":"@alice:example.org","type":"m.room.member","content":{"membership":"join","displayname":"alice"},"state_key":"@alice:example.org","origin_server_ts":1,"prev_events":["$create"],"auth_events":["$create"]},{"event_id":"$pl","room_id":"!room:example.org","sender":"@alice:example.org","type":"m.room.power_levels","content":{"users":{"@alice:example.org":100},"invite":0,"kick":50,"ban":50,"redact":50,"state_default":50,"events_default":0,"users_default":0,"events":{"m.room.name":50},"notifications":{"room":50}},"state_key":"","origin_server_ts":2,"prev_events":["$alice-join"],"auth_events":["$create","$alice-join"]},{"event_id":"$jr","room_id":"!room:example.org","sender":"@alice:example.org","type":"m.room.join_rules","content":{"join_rule":"public"},"state_key":"","origin_server_ts":3,"prev_events":["$pl"],"auth_events":["$create","$alice-join","$pl"]},{"event_id":"$bob-join","room_id":"!room:example.org","sender":"@bob:example.org","type":"m.room.member","content":{"membership":"join"},"state_key":"@bob:example.org","origin_server_ts":4,"prev_events":["$jr"],"auth_events":["$create","$jr","$pl"]},{"event_id":"$pl2","room_id":"!room:example.org","sender":"@alice:example.org","type":"m.room.power_levels","content":{"users":{"@alice:example.org":100,"@bob:example.org":50}},"state_key":"","origin_server_ts":5,"prev_events":["$bob-join"],"auth_events":["$create","$alice-join","$pl"]},{"event_id":"$name-a","room_id":"!room:example.org","sender":"@alice:example.org","type":"m.room.name","content":{"name":"A"},"state_key":"","origin_server_ts":6,"prev_events":["$pl2"],"auth_events":["$create","$alice-join","$pl2"]},{"event_id":"$name-b","room_id":"!room:example.org","sender":"@bob:example.org","type":"m.room.name","content":{"name":"B"},"state_key":"","origin_server_ts":7,"prev_events":["$pl2"],"auth_events":["$create","$bob-join","$pl2"]},{"event_id":"$msg","room_id":"!room:example.org","sender":"@bob:example.org","type":"m.room.message","content":{"msgtype":"m.text","body":"hi"},"origin_server_ts":8,"prev_events":["$name-a","$name-b"],"auth_events":["$create","$bob-join","$pl2"]}]"###,
     r###"[{"event_id":"$create","room_id":"!room:example.org","sender":"@alice:example.org","type":"m.room.create","content":{"creator":"@alice:example.org","room_version":"10"},"state_key":"","origin_server_ts":0,"prev_events":[],"auth_events":[]},{"event_id":"$alice-join","room_id":"!room:example.org","sender":"@alice:example.org","type":"m.room.member","content":{"membership":"join"},"state_key":"@alice:example.org","origin_server_ts":1,"prev_events":["$create"],"auth_events":["$create"]},{"event_id":"$pl","room_id":"!room:example.org","sender":"@alice:example.org","type":"m.room.power_levels","content":{"users":{"@alice:example.org":100},"invite":50},"state_key":"","origin_server_ts":2,"prev_events":["$alice-join"],"auth_events":["$create","$alice-join"]},{"event_id":"$jr","room_id":"!room:example.org","sender":"@alice:example.org","type":"m.room.join_rules","content":{"join_rule":"restricted","allow":[{"type":"m.room_membership","room_id":"!space:example.org"}]},"state_key":"","origin_server_ts":3,"prev_events":["$pl"],"auth_events":["$create","$alice-join","$pl"]},{"event_id":"$carol-join","room_id":"!room:example.org","sender":"@carol:example.org","type":"m.room.member","content":{"membership":"join","join_authorised_via_users_server":"@alice:example.org"},"state_key":"@carol:example.org","origin_server_ts":4,"prev_events":["$jr"],"auth_events":["$create","$jr","$pl","$alice-join"]},{"event_id":"$tpi","room_id":"!room:example.org","sender":"@alice:example.org","type":"m.room.third_party_invite","content":{"display_name":"d","key_validity_url":"https://x","public_key":"fQpGIW1Snz+pwLZu6sTy2aHy/DYWWTspTJRPyNp0PKk","public_keys":[{"public_key":"fQpGIW1Snz+pwLZu6sTy2aHy/DYWWTspTJRPyNp0PKk"}]},"state_key":"tok","origin_server_ts":5,"prev_events":["$carol-join"],"auth_events":["$create","$alice-join","$pl"]},{"event_id":"$dave-invite","room_id":"!room:example.org","sender":"@alice:example.org","type":"m.room.member","content":{"membership":"invite","third_party_invite":{"display_name":"d","signed":{"mxid":"@dave:example.org","token":"tok","signatures":{"magic.forest":{"ed25519:3":"fQpGIW1Snz+pwLZu6sTy2aHy/DYWWTspTJRPyNp0PKkymfIsNffysMl6ObMMFdIJhk6g6pwlIqZ54rxo8SLmAg"}}}}},"state_key":"@dave:example.org","origin_server_ts":6,"prev_events":["$tpi"],"auth_events":["$create","$alice-join","$pl","$tpi","$jr"]},{"event_id":"$eve-knock","room_id":"!room:example.org","sender":"@eve:example.org","type":"m.room.member","content":{"membership":"knock"},"state_key":"@eve:example.org","origin_server_ts":7,"prev_events":["$dave-invite"],"auth_events":["$create","$jr","$pl"]},{"event_id":"$mallory-ban","room_id":"!room:example.org","sender":"@alice:example.org","type":"m.room.member","content":{"membership":"ban"},"state_key":"@mallory:example.org","origin_server_ts":8,"prev_events":["$eve-knock"],"auth_events":["$create","$alice-join","$pl"]},{"event_id":"$red","room_id":"!room:example.org","sender":"@alice:example.org","type":"m.room.redaction","content":{"redacts":"$eve-knock"},"redacts":"$eve-knock","origin_server_ts":9,"prev_events":["$mallory-ban"],"auth_events":["$create","$alice-join","$pl"]}]"###,
@@ -375,6 +672,56 @@ pub fn embedded(name: &str) -> Vec<Vec<u8>> {
         "http.r.create_join" => strs(HTTP_R_CREATE_JOIN),
         "http.r.get_pushrules" => strs(HTTP_R_GET_PUSHRULES),
         "http.r.get_state" => strs(HTTP_R_GET_STATE),
+        "http.c.get_message_events" => strs(HTTP_C_GET_MESSAGE_EVENTS),
+        "http.c.get_context" => strs(HTTP_C_GET_CONTEXT),
+        "http.c.login" => strs(HTTP_C_LOGIN),
+        "http.c.register" => strs(HTTP_C_REGISTER),
+        "http.c.create_room" => strs(HTTP_C_CREATE_ROOM),
+        "http.c.upload_keys" => strs(HTTP_C_UPLOAD_KEYS),
+        "http.c.send_to_device" => strs(HTTP_C_SEND_TO_DEVICE),
+        "http.c.set_read_marker" => strs(HTTP_C_SET_READ_MARKER),
+        "http.c.search_users" => strs(HTTP_C_SEARCH_USERS),
+        "http.c.get_keys" => strs(HTTP_C_GET_KEYS),
+        "http.c.set_presence" => strs(HTTP_C_SET_PRESENCE),
+        "http.c.upload_signatures" => strs(HTTP_C_UPLOAD_SIGNATURES),
+        "http.c.get_relations" => strs(HTTP_C_GET_RELATIONS),
+        "http.c.knock_room" => strs(HTTP_C_KNOCK_ROOM),
+        "http.c.report_content" => strs(HTTP_C_REPORT_CONTENT),
+        "http.f.create_invite" => strs(HTTP_F_CREATE_INVITE),
+        "http.f.get_event" => strs(HTTP_F_GET_EVENT),
+        "http.f.backfill" => strs(HTTP_F_BACKFILL),
+        "http.f.claim_keys" => strs(HTTP_F_CLAIM_KEYS),
+        "http.f.get_devices" => strs(HTTP_F_GET_DEVICES),
+        "http.f.send_knock" => strs(HTTP_F_SEND_KNOCK),
+        "http.f.create_leave" => strs(HTTP_F_CREATE_LEAVE),
+        "http.f.query_profile" => strs(HTTP_F_QUERY_PROFILE),
+        "http.f.exchange_invite" => strs(HTTP_F_EXCHANGE_INVITE),
+        "http.f.make_join" => strs(HTTP_F_MAKE_JOIN),
+        "http.a.query_user_id" => strs(HTTP_A_QUERY_USER_ID),
+        "http.a.ping" => strs(HTTP_A_PING),
+        "http.i.bind_3pid" => strs(HTTP_I_BIND_3PID),
+        "http.i.validate_email" => strs(HTTP_I_VALIDATE_EMAIL),
+        "http.i.request_email_token" => strs(HTTP_I_REQUEST_EMAIL_TOKEN),
+        "http.r.c_error" => strs(HTTP_R_C_ERROR),
+        "http.r.uiaa" => strs(HTTP_R_UIAA),
+        "http.r.f_error" => strs(HTTP_R_F_ERROR),
+        "http.r.get_supported_versions" => strs(HTTP_R_GET_SUPPORTED_VERSIONS),
+        "http.r.discover_homeserver" => strs(HTTP_R_DISCOVER_HOMESERVER),
+        "http.r.discover_server" => strs(HTTP_R_DISCOVER_SERVER),
+        "http.r.login_types" => strs(HTTP_R_LOGIN_TYPES),
+        "http.r.login" => strs(HTTP_R_LOGIN),
+        "http.r.make_join" => strs(HTTP_R_MAKE_JOIN),
+        "http.r.state_ids" => strs(HTTP_R_STATE_IDS),
+        "http.r.backfill" => strs(HTTP_R_BACKFILL),
+        "http.r.keys_query" => strs(HTTP_R_KEYS_QUERY),
+        "http.r.get_devices" => strs(HTTP_R_GET_DEVICES),
+        "http.r.messages" => strs(HTTP_R_MESSAGES),
+        "http.r.context" => strs(HTTP_R_CONTEXT),
+        "http.r.joined_members" => strs(HTTP_R_JOINED_MEMBERS),
+        "http.r.public_rooms" => strs(HTTP_R_PUBLIC_ROOMS),
+        "http.r.turn_server" => strs(HTTP_R_TURN_SERVER),
+        "http.r.profile" => strs(HTTP_R_PROFILE),
+        "http.r.hierarchy" => strs(HTTP_R_HIERARCHY),
         "stateres.auth_types" | "stateres.auth_check" | "stateres.resolve" => strs(STATERES),
         _ => Vec::new(),
     }
